@@ -734,3 +734,147 @@ func checkThirdPartyGlobals(w *core.World, r *core.Report, rule string, reach ma
 	r.Check(bad == "", rule, "no process-wide configuration of third-party packages on the request path", badPos, fmt.Sprintf("%d calls of third-party package-level functions scanned", n),
 		"a dependency's package-level state is written on the request path: sessions served concurrently (or with different settings) overwrite each other's configuration inside the dependency: "+bad)
 }
+
+// checkExitValueNotConsumedEarlier (C20 R7): the value the final page of a graceful end is made
+// of is handed out by a destructive read (Cache.Last returns the last loaded value and clears
+// it). A second reader that runs before the engine takes the value - a debug hook, a log line -
+// leaves the engine with an empty string: the session still ends, but the final output is lost.
+// Rule: a call of the destructive read whose result does not become the engine's exit value must
+// not be able to run before one whose result does - directly or through calls, on any path of
+// any library function.
+func checkExitValueNotConsumedEarlier(w *core.World, r *core.Report, rule string) {
+	// the destructive readers: methods of *cache.Cache returning one string that load a receiver
+	// field, store a constant to the same field and return the loaded value
+	destr := map[string]bool{}
+	for _, fn := range w.FuncsIn("cache") {
+		if fn.Signature.Recv() == nil || fn.Signature.Results().Len() != 1 || fn.Signature.Params().Len() != 0 {
+			continue
+		}
+		if core.TypeName(fn.Signature.Recv().Type()) != "*cache.Cache" {
+			continue
+		}
+		cleared := map[string]bool{}
+		for _, in := range allInstrs(fn) {
+			if st, ok := in.(*ssa.Store); ok {
+				if _, f, ok := core.FieldOfAddr(st.Addr); ok {
+					if _, isc := st.Val.(*ssa.Const); isc {
+						cleared[f] = true
+					}
+				}
+			}
+		}
+		for _, in := range allInstrs(fn) {
+			ret, ok := in.(*ssa.Return)
+			if !ok || len(ret.Results) != 1 {
+				continue
+			}
+			for _, src := range core.Sources(ret.Results[0]) {
+				if _, f, ok := core.LoadedField(src); ok && cleared[f] {
+					destr[fn.Name()] = true
+				}
+			}
+		}
+	}
+	if len(destr) == 0 {
+		r.Undecided(rule, "cache: destructive read of the last value", token.NoPos, "no method of Cache reads and clears a field")
+		return
+	}
+	isDestr := func(c ssa.CallInstruction) bool {
+		cc := c.Common()
+		if cc.IsInvoke() {
+			return destr[cc.Method.Name()] && core.TypeName(cc.Value.Type()) == "cache.Memory"
+		}
+		if f := core.StaticCallee(c); f != nil && f.Signature.Recv() != nil {
+			return destr[f.Name()] && core.TypeName(f.Signature.Recv().Type()) == "*cache.Cache"
+		}
+		return false
+	}
+	keeps := func(c ssa.CallInstruction) bool {
+		v := core.CallValue(c)
+		if v == nil {
+			return false
+		}
+		for x := range core.Forward(v, nil) {
+			refs := x.Referrers()
+			if refs == nil {
+				continue
+			}
+			for _, ref := range *refs {
+				if st, ok := ref.(*ssa.Store); ok && st.Val == x {
+					if tn, _, ok := core.FieldOfAddr(st.Addr); ok && tn == "engine.DefaultEngine" {
+						return true
+					}
+				}
+			}
+		}
+		return false
+	}
+	discardIn := map[*ssa.Function][]ssa.Instruction{}
+	keepIn := map[*ssa.Function][]ssa.Instruction{}
+	nKeep, nDisc := 0, 0
+	for _, fn := range w.LibFuncs {
+		for _, c := range core.Calls(fn) {
+			if !isDestr(c) || core.PkgOf(fn) == "cache" {
+				continue
+			}
+			if keeps(c) {
+				keepIn[fn] = append(keepIn[fn], c.(ssa.Instruction))
+				nKeep++
+			} else {
+				discardIn[fn] = append(discardIn[fn], c.(ssa.Instruction))
+				nDisc++
+			}
+		}
+	}
+	if nKeep == 0 {
+		r.Bad(rule, "engine: exit value taken from the last loaded value", token.NoPos, "no destructive read of the last value is stored in the engine: a graceful end has no final output")
+		return
+	}
+	bad := ""
+	var badPos token.Pos
+	if nDisc > 0 {
+		reach := func(set map[*ssa.Function][]ssa.Instruction) map[*ssa.Function]bool {
+			out := map[*ssa.Function]bool{}
+			for _, fn := range w.LibFuncs {
+				seen, _ := w.Reachable([]*ssa.Function{fn})
+				for g := range seen {
+					if len(set[g]) > 0 {
+						out[fn] = true
+						break
+					}
+				}
+			}
+			return out
+		}
+		rD, rK := reach(discardIn), reach(keepIn)
+		for _, fn := range w.LibFuncs {
+			var ds, ks []ssa.Instruction
+			ds = append(ds, discardIn[fn]...)
+			ks = append(ks, keepIn[fn]...)
+			for _, c := range core.Calls(fn) {
+				for _, g := range w.Callees(c) {
+					if rD[g] {
+						ds = append(ds, c.(ssa.Instruction))
+					}
+					if rK[g] {
+						ks = append(ks, c.(ssa.Instruction))
+					}
+				}
+			}
+			for _, d := range ds {
+				for _, k := range ks {
+					if d == k {
+						continue
+					}
+					if hit, _ := core.Reach(core.After(d), core.IsInstr(k), nil); hit != nil {
+						bad = fmt.Sprintf("in %s the last value can be consumed at %s before the engine takes it at %s", core.QName(fn), w.Pos(d.Pos()), w.Pos(k.Pos()))
+						badPos = d.Pos()
+					}
+				}
+			}
+		}
+	}
+	r.Check(bad == "", rule, "engine: nothing consumes the last value before the exit value is taken", badPos,
+		fmt.Sprintf("%d destructive read(s) stored in the engine, %d other(s), none ordered before", nKeep, nDisc),
+		"the final output of a graceful end is lost (the destructive read returns the value once): "+bad)
+}
